@@ -172,6 +172,8 @@ pub struct CallSpec {
     pub args: Args,
     pub script: HashMap<String, String>,
     pub seed: u64,
+    /// when set the transport answers with this response instead of routing to the server
+    pub canned: Option<crate::loopback::Canned>,
 }
 
 pub fn run_call_sync(
@@ -181,6 +183,7 @@ pub fn run_call_sync(
 ) -> Value {
     let rec = Rec::new(spec.script.clone());
     let lb = Loopback::new(endpoints(rec.clone()), spec.seed);
+    *lb.canned.lock().unwrap() = spec.canned.clone();
     let r = guard(|| call(&lb, &spec.method, &spec.args));
     outcome(r, &rec, lb.last())
 }
@@ -192,6 +195,7 @@ pub fn run_call_async(
 ) -> Value {
     let rec = Rec::new(spec.script.clone());
     let lb = AsyncLoopback::new(endpoints(rec.clone()), spec.seed);
+    *lb.canned.lock().unwrap() = spec.canned.clone();
     let r = guard(|| call(&lb, &spec.method, &spec.args));
     outcome(r, &rec, lb.last())
 }
@@ -204,6 +208,8 @@ pub struct RawSpec {
     pub headers: Vec<(String, String)>,
     pub body: String,
     pub seed: u64,
+    /// index of the body chunk before which the stream fails
+    pub fail_at: Option<usize>,
 }
 
 fn raw_parts(spec: &RawSpec) -> (http::Method, http::Uri, http::HeaderMap, Vec<bytes::Bytes>) {
@@ -222,7 +228,13 @@ fn raw_parts(spec: &RawSpec) -> (http::Method, http::Uri, http::HeaderMap, Vec<b
     (method, uri, headers, crate::random_chunking(&mut rng, &body))
 }
 
-fn raw_outcome(result: Result<Result<u16, Error>, String>, rec: &Rec, ext: &http::Extensions, routes: usize) -> Value {
+fn raw_chunks(spec: &RawSpec, chunks: Vec<bytes::Bytes>) -> (Chunks, usize) {
+    let n = chunks.len();
+    let c = Chunks::of(chunks);
+    (match spec.fail_at { Some(at) => c.fail_at(at), None => c }, n)
+}
+
+fn raw_outcome(result: Result<Result<u16, Error>, String>, rec: &Rec, ext: &http::Extensions, routes: usize, n_chunks: usize) -> Value {
     let calls: Vec<Value> = rec.calls.lock().unwrap().iter().map(|(e, a)| j_!({"endpoint": e, "args": a})).collect();
     let res = match result {
         Err(p) => j_!({"panic": p}),
@@ -236,7 +248,7 @@ fn raw_outcome(result: Result<Result<u16, Error>, String>, rec: &Rec, ext: &http
             j_!({"err": code, "safe_params": sp, "cause_safe": e.cause_safe(), "cause": e.cause().to_string()})
         }
     };
-    j_!({"result": res, "calls": calls, "routes_matched": routes, "safe_params": crate::loopback::safe_params_vec(ext)})
+    j_!({"result": res, "calls": calls, "routes_matched": routes, "chunks": n_chunks, "safe_params": crate::loopback::safe_params_vec(ext)})
 }
 
 pub fn run_raw_sync(spec: &RawSpec, endpoints: impl FnOnce(Rec) -> Vec<Box<dyn conjure_http::server::Endpoint<Chunks, Vec<u8>> + Sync + Send>>) -> Value {
@@ -248,17 +260,18 @@ pub fn run_raw_sync(spec: &RawSpec, endpoints: impl FnOnce(Rec) -> Vec<Box<dyn c
     let n = routed.len();
     let mut ext = http::Extensions::new();
     if n != 1 {
-        return raw_outcome(Err("harness: request does not route to exactly one endpoint".into()), &rec, &ext, n);
+        return raw_outcome(Err("harness: request does not route to exactly one endpoint".into()), &rec, &ext, n, 0);
     }
     let r = routed.pop().unwrap();
-    let mut req = http::Request::new(Chunks::of(chunks));
+    let (chunks, n_chunks) = raw_chunks(spec, chunks);
+    let mut req = http::Request::new(chunks);
     *req.method_mut() = method;
     *req.uri_mut() = uri;
     *req.headers_mut() = headers;
     req.extensions_mut().insert(r.params);
     let e = &eps[r.index];
     let result = guard(|| e.handle(req, &mut ext).map(|resp| resp.status().as_u16()));
-    raw_outcome(result, &rec, &ext, n)
+    raw_outcome(result, &rec, &ext, n, n_chunks)
 }
 
 pub fn run_raw_async(spec: &RawSpec, endpoints: impl FnOnce(Rec) -> Vec<conjure_http::server::BoxAsyncEndpoint<'static, ChunkStream, Vec<u8>>>) -> Value {
@@ -271,15 +284,16 @@ pub fn run_raw_async(spec: &RawSpec, endpoints: impl FnOnce(Rec) -> Vec<conjure_
     let n = routed.len();
     let mut ext = http::Extensions::new();
     if n != 1 {
-        return raw_outcome(Err("harness: request does not route to exactly one endpoint".into()), &rec, &ext, n);
+        return raw_outcome(Err("harness: request does not route to exactly one endpoint".into()), &rec, &ext, n, 0);
     }
     let r = routed.pop().unwrap();
-    let mut req = http::Request::new(ChunkStream::new(Chunks::of(chunks)));
+    let (chunks, n_chunks) = raw_chunks(spec, chunks);
+    let mut req = http::Request::new(ChunkStream::new(chunks));
     *req.method_mut() = method;
     *req.uri_mut() = uri;
     *req.headers_mut() = headers;
     req.extensions_mut().insert(r.params);
     let e = &eps[r.index];
     let result = guard(|| crate::block_on(async { e.handle(req, &mut ext).await.map(|resp| resp.status().as_u16()) }));
-    raw_outcome(result, &rec, &ext, n)
+    raw_outcome(result, &rec, &ext, n, n_chunks)
 }
